@@ -20,8 +20,14 @@ def design(tier, seed):
 
     r = tlc.run_model('CnfLemmas', 'CnfLemmas.cfg', workers=16, tag='C05-lemma', xmx='6g')
     tlc.cleanup(r['workdir'])
-    return {'states': r['distinct'], 'transitions': r['generated'],
-            'runs': [f'CnfLemmas (the specification-level Tseytin encoder Cnf.Tseytin is exact on every netlist of U(2,2,15 types,3), three output selections): {r["distinct"]} states, {r["wall_s"]:.1f}s']}
+    r2 = tlc.run_model('TseytinWalk', 'TseytinWalk_quick.cfg' if tier == 'quick' else 'TseytinWalk.cfg', workers=12, tag='C05-walk', xmx='8g', timeout=3000)
+    tlc.cleanup(r2['workdir'])
+    return {'states': r['distinct'] + r2['distinct'], 'transitions': r['generated'] + r2['generated'],
+            'runs': [f'TseytinWalk (the explicit-stack gate walk of tseytin_transformation as a state machine over every operand graph on '
+                     f'{3 if tier == "quick" else 4} nodes with <= 2 operands, cyclic ones included, and every one or two start labels: terminates, reports a cycle '
+                     f'exactly when one is reachable, emits every gate once after its operands, numbers literals in the post-order the judge '
+                     f'models, the stack is a path): {r2["distinct"]} states, {r2["wall_s"]:.1f}s',
+                     f'CnfLemmas (the specification-level Tseytin encoder Cnf.Tseytin is exact on every netlist of U(2,2,15 types,3), three output selections): {r["distinct"]} states, {r["wall_s"]:.1f}s']}
 
 
 def sources(tier, seed, ctx):
